@@ -274,6 +274,7 @@ class Path(object):
         self.next = nxt or {}       # phi var name -> value at the stop block
         self.known = st.known
         self.neq = st.neq
+        self.decided = st.decided
         self.trace = st.trace
         self.last_ins = last_ins
         self.mem = st.mem
@@ -1003,7 +1004,7 @@ class Explorer(object):
                 s2.mem = dict(p.mem)
                 s2.known = dict(p.known)
                 s2.neq = dict(p.neq)
-                s2.decided = dict(st.decided)
+                s2.decided = dict(getattr(p, 'decided', None) or st.decided)      # what the callee's branches have settled stays settled
                 s2.events = list(p.events)
                 # drop callee's 'ret' event marker from the flow but keep it labelled
                 s2.assume = list(p.assume)
